@@ -80,21 +80,22 @@ func (m *sessionManager) setRaw(c fiber.Ctx, key string, raw []byte, exp time.Du
 	}
 }
 
-// delete token from session
-func (m *sessionManager) delRaw(c fiber.Ctx) {
+// delete token from session. An error means that the deletion is not recorded: the token is still usable.
+func (m *sessionManager) delRaw(c fiber.Ctx) error {
 	sess := session.FromContext(c)
 	if sess != nil {
 		sess.Delete(sessionKey)
-	} else {
-		// Try to get the session from the store
-		storeSess, err := m.session.Get(c)
-		if err != nil {
-			// Handle error
-			return
-		}
-		storeSess.Delete(sessionKey)
-		if err := storeSess.Save(); err != nil {
-			log.Warn("csrf: failed to save session: ", err)
-		}
+		return nil
 	}
+	// Try to get the session from the store
+	storeSess, err := m.session.Get(c)
+	if err != nil {
+		return err
+	}
+	storeSess.Delete(sessionKey)
+	if err := storeSess.Save(); err != nil {
+		log.Warn("csrf: failed to save session: ", err)
+		return err
+	}
+	return nil
 }
